@@ -459,6 +459,26 @@ func genC03(r *rand.Rand, n int, exhaustive bool, out func(J), next func() int) 
 		q = withProjection(r, q)
 		out(tag(run(Spec{Graphs: gs, Query: q.text()}, false), "chain", next()))
 	}
+	// (3b) clause-level intervals against global bounds (updateTimeBounds: the tighter bound wins)
+	bnds := []string{"", "2016-01-01T00:00:00Z", "2016-06-01T00:00:00-08:00", "2017-01-01T00:00:00Z"}
+	for i := 0; i < n/12; i++ {
+		gs = graphsFor(r, 1, 10+r.Intn(14))
+		lo, hi := r.Intn(len(bnds)), r.Intn(len(bnds))
+		if lo > hi && hi != 0 {
+			lo, hi = hi, lo
+		}
+		id := pick(r, []string{`"q"`, `"p"`, `"r"`})
+		c := fmt.Sprintf("?s %s@[%s,%s] ?o", id, bnds[lo], bnds[hi])
+		if r.Intn(3) == 0 {
+			c = fmt.Sprintf("%s %s@[%s,%s] ?o", pick(r, vNodes[:3]), id, bnds[lo], bnds[hi])
+		}
+		q := query{clauses: []string{c}, optional: []bool{false}, from: 1, tail: pick(r, tails)}
+		if r.Intn(3) == 0 {
+			q.clauses = append([]string{"?s ?p0 ?x"}, q.clauses...)
+			q.optional = append(q.optional, false)
+		}
+		out(tag(run(Spec{Graphs: gs, Query: q.text()}, false), "bounds", next()))
+	}
 	// (4) malformed stream: statements the front end must reject
 	bad := []string{
 		"SELECT ?nope FROM ?g0 WHERE { ?s ?p ?o };",
